@@ -714,3 +714,68 @@ def _generator(chk, grd, u, entries):
         else:
             ent["ok"] += 1
             ent["how"] = "supplied grid compared with the grid generated from the knots"
+
+
+# ------------------------------------------------------------------------------------------------
+# forwarding: compound operators hand their own grid / interval index to every member operator
+# ------------------------------------------------------------------------------------------------
+def forwarding(chk, units):
+    """The grid guard of a spline factor lives in SplineOperator::transform; it is reached only if every
+    compound operator (product, sum, scalar multiple, ...) calls the transform of each of its member operators
+    on every normal path, with its own grid parameter and its own interval index, unchanged."""
+    rule = "R-GRD.fwd"
+    chk.rule(rule, "every transform() of a class that holds member operators calls each member's transform() on all "
+                   "normal paths with its own grid and interval-index parameters (so that the grid guard and the "
+                   "position dependence of nested operators are always reached)")
+    seen = {}
+    for u in units:
+        getters = getter_table(u)
+        for f in u.funcs:
+            d = f.decl
+            if f.dependent or not f.in_lib() or f.cfg is None or d["name"] != "transform" or d.get("record") is None:
+                continue
+            rec = u.decls.get(d["record"])
+            if rec is None:
+                continue
+            opfields = [fd for fd in rec.get("fields", ()) if fd["type"].replace("const ", "").startswith(
+                "bspline::operators::") and not fd["type"].startswith("bspline::operators::AdditionOperation")]
+            # member operators = fields whose class has a transform() itself
+            opfields = [fd for fd in opfields if not fd["type"].replace("const ", "").startswith(
+                "bspline::operators::ScalarMultiplication<") or True]
+            gparam = [p for p in d["params"] if class_of_type(p["type"]) == "Grid"]
+            iparam = [p for p in d["params"] if p["type"].replace("const ", "") in ("unsigned long", "size_t")]
+            if not opfields or not gparam or not iparam:
+                continue
+            g, P = CFG(f), Paths(u, f, getters)
+            for fd in opfields:
+                cuts = []
+                for b in g.blocks:
+                    for n in g.elements(b):
+                        ci = call_info(u, n) if n["k"] in CALL_KINDS else None
+                        if ci is None or ci.decl is None or ci.decl["name"] != "transform" or ci.obj is None:
+                            continue
+                        if P.path(ci.obj) != ("f", ("this",), fd["name"]) or len(ci.args) < 3:
+                            continue
+                        ga = P.path(ci.args[1])
+                        ia = strip(ci.args[2])
+                        if ga is None or P.root(ga) != ("var", gparam[0]["id"], gparam[0]["name"]):
+                            continue
+                        if ia is None or ia["k"] != "DeclRefExpr" or ia["d"] != iparam[-1]["id"]:
+                            continue
+                        cuts.append(b)
+                reach = g.reachable(cut_blocks=cuts)
+                key = (f.pkey, fd["name"])
+                bad = any(p_ in reach and p_ not in cuts for p_ in g.normal_exit_preds())
+                if bad:
+                    chk.bad(rule, f.where(), f.pqn, "not-forwarded:%s" % fd["name"],
+                            "a normal path of transform() does not call %s.transform(.., grid, intervalIndex) with the "
+                            "unchanged grid and index parameters: a nested spline factor's grid guard (and any position "
+                            "dependence) is skipped on that path" % fd["name"],
+                            witness=dict(instantiation=f.qn, unit=u.name))
+                else:
+                    seen.setdefault(key, 0)
+                    seen[key] += 1
+    for (pkey, fname), n in sorted(seen.items()):
+        chk.ok(rule, "%s:%d" % (C.rel(pkey[0]), pkey[1]), "member operator %s is forwarded to on every normal path "
+               "(%d instantiation(s))" % (fname, n), key=(pkey, fname))
+    return len(seen)
